@@ -156,6 +156,19 @@ def run(ctx):
             for pre in ("\n", "# c\n", "\n\n# c\n \n"):
                 cases.append((name, restyle(pre + base, *st), ref))
                 meta.append((name, "lines-before-metadata", "", st))
+        # every assignment of {tab, four spaces} to the individual indented lines (mixed within one loop body / array)
+        ls = base.split("\n")
+        ind = [i for i, l in enumerate(ls) if l.startswith("    ")]
+        if 2 <= len(ind) <= 6:
+            for mask in range(1, 2 ** len(ind) - 1):
+                v = list(ls)
+                for b, i in enumerate(ind):
+                    if mask >> b & 1:
+                        v[i] = "\t" + v[i][4:]
+                for nl in ("\n", "\r\n", "\r"):
+                    cases.append((name, restyle("\n".join(v), nl, False, True), ref))
+                    meta.append((name, "mixed-indentation", "", (nl, "mixed", True)))
+                    per_kind["mixed-indentation"] += 1
         for kind, site, feat, var in usable:
             styles = STYLES if (kind != "space" or ctx.quick is False) else [STYLES[0], STYLES[5], STYLES[10]]
             for st in styles:
